@@ -141,12 +141,13 @@ def jit_eval(model, instr, inp, fn=None, args=None):
     env = Env()
     env.bind("self", SelfV())
     if fn is None:
-        env.bind("instr", instr)
-        env.bind("live", LiveV())
-        env.bind("program", Opaque("program"))
-        env.bind("i", Opaque("i"))
-        env.bind("limited", inp.get("limited", False))
-        env.bind("safe", inp.get("safe", True))
+        nm = model.names
+        env.bind(nm["instr"], instr)
+        env.bind(nm["live"], LiveV())
+        env.bind(nm["program"], Opaque("program"))
+        env.bind(nm["i"], Opaque("i"))
+        env.bind(nm["limited"], inp.get("limited", False))
+        env.bind(nm["safe"], inp.get("safe", True))
         it.eval(model.match, env)
     else:
         params = [p for p in fn["node"]["sig"]["inputs"] if p["t"] == "Arg"]
@@ -743,11 +744,11 @@ def rule_lim_jit(res, ast, model):
                 mi = i
         for i, st in enumerate(stmts[:mi] if mi is not None else []):
             e = st.get("expr")
-            if st["t"] == "ExprStmt" and e["t"] == "If" and path_name(strip_paren(e["cond"])) == "limited" and e["else"] is None:
+            if st["t"] == "ExprStmt" and e["t"] == "If" and path_name(strip_paren(e["cond"])) == model.names["limited"] and e["else"] is None:
                 inner = e["then"]["stmts"]
                 if len(inner) == 1 and inner[0]["t"] == "ExprStmt" and inner[0]["expr"]["t"] == "If":
                     c = strip_paren(inner[0]["expr"]["cond"])
-                    if c["t"] == "Let" and path_name(strip_paren(c["expr"])) == "instr":
+                    if c["t"] == "Let" and path_name(strip_paren(c["expr"])) == model.names["instr"]:
                         pats = c["pat"]["cases"] if c["pat"]["t"] == "POr" else [c["pat"]]
                         pn = sorted(p["path"]["name"] for p in pats if p["t"] == "PTupleStruct")
                         calls = [m for m in walk_t(inner[0]["expr"]["then"], "MethodCall") if m["method"] == "emit_limit_check"]
@@ -888,7 +889,7 @@ def rule_branches(res, ast, model):
             ok = False
             if len(pushes) == 1 and pushes[0]["args"][0]["t"] == "Tuple" and len(pushes[0]["args"][0]["elems"]) == 2:
                 t = strip_paren(pushes[0]["args"][0]["elems"][1])
-                ok = (t["t"] == "MethodCall" and t["method"] == "wrapping_add_signed" and path_name(t["receiver"]) == "i"
+                ok = (t["t"] == "MethodCall" and t["method"] == "wrapping_add_signed" and path_name(t["receiver"]) == model.names["i"]
                       and path_name(t["args"][0]) == offname)
             res.check(ok, "BR-JIT", f"{CODEGEN}|emit_program|{p['path']['name']}|target", where(CODEGEN, a, "emit_program"),
                       "branch target recorded in reloc_br is not i.wrapping_add_signed(off)")
